@@ -345,8 +345,13 @@ func (w *walker) forStmt(s *ast.ForStmt, label string, st *state, k func(*state)
 			if n >= w.cfg.Unroll {
 				if s.Cond == nil {
 					w.finish(st, EndLoopCut)
+					return
 				}
-				// a conditional loop is assumed to exit after Unroll iterations: this branch is dropped
+				// a conditional loop is cut after Unroll iterations: the remaining iterations are
+				// summarised by forgetting everything the loop assigns, then the loop is left
+				st = st.clone()
+				w.havoc(st, s.Body, s.Post)
+				k(st)
 				return
 			}
 			st = w.pushCtl(st, ctl{label: label, isLoop: true,
@@ -675,4 +680,38 @@ func (w *walker) runDefers(st *state) {
 		}
 	}
 	w.dispatch(d.call, unparen(d.call.Fun), d.fv, d.args, st, after)
+}
+
+// havoc forgets the abstract values and facts of every variable assigned inside the nodes.
+func (w *walker) havoc(st *state, nodes ...ast.Node) {
+	fr := st.fr()
+	forget := func(lhs ast.Expr) {
+		w.killFactsFor(lhs, fr, st)
+		w.bindUnknown(lhs, st)
+	}
+	for _, n := range nodes {
+		if n == nil {
+			continue
+		}
+		ast.Inspect(n, func(x ast.Node) bool {
+			switch a := x.(type) {
+			case *ast.AssignStmt:
+				for _, l := range a.Lhs {
+					forget(l)
+				}
+			case *ast.IncDecStmt:
+				forget(a.X)
+			case *ast.RangeStmt:
+				if a.Key != nil {
+					forget(a.Key)
+				}
+				if a.Value != nil {
+					forget(a.Value)
+				}
+			case *ast.FuncLit:
+				return false
+			}
+			return true
+		})
+	}
 }
